@@ -15,7 +15,8 @@ import vlib
 
 MODULE = "Handshake12"
 MUTS = ["absent", "wrongcookie", "lastbit", "truncated", "extended", "stale", "emptycookie", "random", "sessionid",
-        "suites-reorder", "suites-drop", "ext-drop", "genuine"]
+        "suites-reorder", "suites-drop", "ext-drop", "genuine",
+        "stim-emptyack", "stim-ack", "stim-ccs", "stim-warning-alert", "stim-hs-garbage"]
 # RFC 6347 4.2.1 lists version, random, session_id, cipher_suites, compression_methods as the parameters the second
 # ClientHello must repeat (plus CID / use_srtp per the anchor): other DTLS 1.2 extensions are informational (DESIGN 4, C13)
 INFO_ONLY = {("12", "ext-drop")}
@@ -71,7 +72,11 @@ def run(chk):
                 if (ver, c["mut"]) in INFO_ONLY:
                     chk.note("info (outside the RFC 6347 4.2.1 parameter list): %s" % v)
                     break
-                chk.violation({"kind": "hello-pair", "what": v, "case": c, "emitted": r.get("emitted")})
+                if c["mut"].startswith("stim-") and "cookie requests although" in v:
+                    chk.violation({"kind": "cookie-request-without-clienthello", "ver": ver, "stimulus": c["mut"], "what": v,
+                                   "case": c, "emitted": r.get("emitted")})
+                else:
+                    chk.violation({"kind": "hello-pair", "what": v, "case": c, "emitted": r.get("emitted")})
                 break
         if applied < len(cases) * 0.8 or progressed == 0:
             raise vlib.Inconclusive("vacuous cookie run: %d of %d mutations applied, %d positive controls" % (applied, len(cases), progressed))
